@@ -13,8 +13,8 @@ from vf.runner import Violation, hyp_search
 
 ID = "C03"
 EXHAUSTIVE = True
-RULE = ("Complete enumeration, per rule, of {absent, each listed value, one unlisted value} per declared attribute "
-        "(attributes without a list: {absent, one value}) x {no foreign attribute, one foreign attribute}, run in "
+RULE = ("Complete enumeration, per rule, of {absent, each listed value, one unlisted value, the empty string} per declared "
+        "attribute (attributes without a list: {absent, one value, the empty string}) x {no foreign attribute, one foreign attribute}, run in "
         "fail-fast and collecting mode through validate.node on a node with valid content and children; then "
         "Hypothesis re-draws the concrete strings (arbitrary Unicode, near-misses of listed values, foreign names). "
         "Non-trivial: an assignment with at least one attribute present or one required attribute absent; distinct "
@@ -82,6 +82,19 @@ def check_introspection(rule_name):
             raise Violation("introspection-required", f"is_required_attribute({a!r})={req!r} spec says {s[0]!r}", case)
         if list(vals) != list(s[1:]):
             raise Violation("introspection-values", f"allowed_attribute_values({a!r})={vals!r} spec says {s[1:]!r}", case)
+        # the answer must not hand out the table's own list: a caller editing it must not change validation
+        leaked = False
+        try:
+            vals.append("zzInjected")
+            again = R.Rule(rule_name).allowed_attribute_values(a)
+            leaked = "zzInjected" in again or "zzInjected" in R.rules_dict[rule_name][0][a]
+        finally:
+            while "zzInjected" in R.rules_dict[rule_name][0][a]:
+                R.rules_dict[rule_name][0][a].remove("zzInjected")
+            vals = [v for v in vals if v != "zzInjected"]
+        if leaked:
+            raise Violation("introspection-leaks-table", f"editing the list returned by allowed_attribute_values({a!r}) "
+                            f"changes what the rule allows", case)
         # behavioural link: what the queries report is what validation enforces
         base = build.valid_attrs(rule_name)
         without = {k: v for k, v in base.items() if k != a}
@@ -107,7 +120,8 @@ def assignments(rule_name):
     spec = R.rules_dict[rule_name][0]
     opts = []
     for a, s in spec.items():
-        vals = [None] + (list(s[1:]) + [UNLISTED] if len(s) > 1 else ["v"])
+        # absent, each listed value, an unlisted value, and the empty string (present, but falsy)
+        vals = [None] + (list(s[1:]) + [UNLISTED] + ([""] if "" not in s[1:] else []) if len(s) > 1 else ["v", ""])
         opts.append([(a, v) for v in vals])
     for combo in itertools.product(*opts):
         for foreign in (False, True):
